@@ -1,12 +1,21 @@
 #!/bin/sh
-# builds the driver from the extracted model (model.ml is produced by coq/Extract.v).
+# builds the driver from the extracted model: ocaml/gen/*.ml is produced by coq/Extract.v
+# (Separate Extraction), compiled with -for-pack and packed as module Mdl; model.ml is a
+# hand-written shim re-exporting the core modules as `Model`.
 # Every chk_*.ml defines  let kinds : (string * (Blocks.block -> Blocks.verdict list)) list
 set -e
 cd "$(dirname "$0")"
 rm -rf _build
-mkdir -p _build
-cp model.ml model.mli conv.ml blocks.ml chk_*.ml driver.ml _build/
-cd _build
+mkdir -p _build/gen
+cp gen/*.ml gen/*.mli _build/gen/
+cd _build/gen
+GEN=$(ocamlfind ocamldep -sort *.mli *.ml)
+ocamlfind ocamlopt -w -a -for-pack Mdl -c $GEN
+CMX=$(for f in $(ocamlfind ocamldep -sort *.ml); do echo ${f%.ml}.cmx; done)
+ocamlfind ocamlopt -w -a -pack -o mdl.cmx $CMX
+cp mdl.cmx mdl.cmi mdl.o ..
+cd ..
+cp ../model.ml ../conv.ml ../blocks.ml ../chk_*.ml ../driver.ml .
 CHK=$(ocamlfind ocamldep -sort chk_*.ml)
 { printf 'let checkers = List.concat ['; for f in $CHK; do m=$(basename $f .ml); M=$(echo $m | cut -c1 | tr a-z A-Z)$(echo $m | cut -c2-); printf '%s.kinds; ' $M; done; echo ']'; } > registry.ml
-ocamlfind ocamlopt -w -a -package unix -linkpkg model.mli model.ml conv.ml blocks.ml $CHK registry.ml driver.ml -o driver
+ocamlfind ocamlopt -w -a -package unix -linkpkg mdl.cmx model.ml conv.ml blocks.ml $CHK registry.ml driver.ml -o driver
